@@ -77,7 +77,24 @@ impl<'t, 'a> LitGen<'t, 'a> {
     fn stmt(&mut self) -> String {
         self.counter += 1;
         let n = self.counter;
-        match self.t.below(28) {
+        match self.t.below(30) {
+            28 => {
+                // a string literal as computed member name of a call; sometimes it spells a configured method name
+                if self.t.flag() {
+                    let m = *self.t.pick(&["toLowerCase", "toUpperCase", "toLocaleString", "replaceAll!"]);
+                    self.planted.push(Planted { value: m.to_string(), text: format!("'{m}'"), ident: None, reported: true, free: false, tag: "computed-method-name-configured" });
+                    format!("x = a['{m}']();")
+                } else {
+                    let k = self.plant(None, true, false, "computed-method-name");
+                    format!("x = a[{k}](b);")
+                }
+            }
+            29 => {
+                let m = *self.t.pick(&["toLowerCase", "toUpperCase"]);
+                self.planted.push(Planted { value: m.to_string(), text: format!("\"{m}\""), ident: None, reported: true, free: false, tag: "computed-method-name-configured" });
+                let l = self.plant(Some(None), true, false, "method-argument");
+                format!("x = a.b[\"{m}\"]({l}) + b;")
+            }
             26 => {
                 // a string literal as (or inside) a computed key whose property value is a string literal too
                 let k = self.plant(None, true, false, "computed-key-literal");
@@ -272,6 +289,16 @@ impl Check for C14 {
         src.push_str("    return p;\n  }\n  return [x, y, inner];\n}\n");
         if crlf {
             src = src.replace('\n', "\r\n");
+        }
+        // sometimes the file carries a (non-identity) map of its own and chaining is on: the report still speaks of the input text
+        if g.t.chance(60) {
+            let lines = src.lines().count() as u32;
+            let segs: Vec<crate::smap::Seg> = (0..lines).map(|l| crate::smap::Seg { gen_line: l, gen_col: 0, src: Some((0, 2 * l + 5, 7, None)) }).collect();
+            let m = crate::smap::Map { version: 3, sources: vec!["lits.ts".into()], names: vec![], source_root: None, segs, has_sections: false };
+            let mj = crate::smap::encode_map(&m, &json!({}));
+            src.push_str(&format!("//# sourceMappingURL=data:application/json;base64,{}\n", crate::smap::encode_base64(mj.to_string().as_bytes())));
+            j["chainSourceMap"] = json!(true);
+            cfg = info_from_json(&j);
         }
         let planted: Vec<Value> = g
             .planted
